@@ -66,7 +66,7 @@ def c03(tier):
 
 
 def c05(tier):
-    family = fam(['failing', 'fail_diamond', 'fail_memo', 'nodir']) + [p for p in programs.parallel_family() if p['name'] == 'par_fail']
+    family = fam(['failing', 'fail_diamond', 'fail_memo', 'nodir', 'fail_kinds']) + [p for p in programs.parallel_family() if p['name'] == 'par_fail']
     v, cov, te, wall = syscheck.run_family(
         'C05', tier, family, ['FailPropagates', 'NoCleanOverFailed', 'NoDupRun', 'NoUnderBuild'], [],
         {'rc', 'ran', 'row.failed', 'row.gen', 'file'},
@@ -128,12 +128,14 @@ def c07(tier):
         'C07', tier, family, ['NoDupRun', 'Fresh', 'NoTmpLeft', 'FailPropagates'], ['NoTrample'],
         {'rc', 'ran', 'file', 'row.gen', 'row.failed', 'row.csum', 'row.ovr', 'edge', 'tmp'},
         bounds(tier, (3, 2), (3, 2)), sample_n=None if tier == 'thorough' else 30,
-        jitter=True, repeat=6 if tier == 'thorough' else 2, sched_independent=True,
+        jitter=True, repeat=24 if tier == 'thorough' else 4, sched_independent=True, sched=3, trace_locks=True,
         required_actions=['AcquireA', 'ReleaseA', 'Pass2A'],
         note='redo -j2/-j3 on diamonds, fans, shared checksummed and always targets, a failing sibling; TLC '
              'enumerates every interleaving of process steps; the driver checks that all terminal outcomes of one '
-             'input agree (exit status, files, rows, edges); the real build is run with random script delays and '
-             'must agree with a specification behaviour')
+             'input agree (exit status, files, rows, edges); the real build is run with random script delays and, three '
+             'runs out of four, under controlled scheduling (every process stops at every gate, a seeded scheduler lets one '
+             'go at a time: uniform choice or PCT priorities with the change point swept by the seed) and must agree with '
+             'a specification behaviour')
     return finish('C07', tier, v, cov, te, wall)
 
 
@@ -339,7 +341,7 @@ def c06(tier):
     v, cov, te, wall = syscheck.run_family(
         'C06', tier, programs.parallel_family(), ['ScriptMutex', 'HoldThroughRecord', 'ScriptUnderLock', 'NoDupRun'], [],
         {'rc', 'ran', 'file', 'row.gen', 'row.failed'}, (3, 2), sample_n=None if tier == 'thorough' else 12,
-        jitter=True, repeat=2 if tier == 'thorough' else 1, verdict=verdict,
+        jitter=True, repeat=8 if tier == 'thorough' else 2, verdict=verdict, sched=1,
         required_actions=['AcquireA', 'ReleaseA', 'Pass2A', 'UnlockedStepA'],
         note='RedoSys at -j2/-j3: siblings contending for shared targets, redo-unlocked delegates')
     # (b) several invocations at once: recorded lock / script / commit events against TraceLocks
@@ -517,7 +519,8 @@ def selftest(tier='quick'):
     cases.append(('TraceJobs', 'one Reap removed', drop(jr, lambda x: x['ev'] == 'Reap'), False))
     cases.append(('TraceLocks', 'unchanged trace', lr, True))
     cases.append(('TraceLocks', 'lock grant of a built target removed', drop(lr, lambda x: x['ev'] == 'Take' and any(y['ev'] == 'Start' and y['fid'] == x['fid'] for y in lr)), False))
-    cases.append(('TraceLocks', 'a commit removed before the unlock', drop(lr, lambda x: x['ev'] == 'Commit' and lr[lr.index(x) - 1]['ev'] == 'Rec'), False))
+    ci = next(i for i in range(1, len(lr)) if lr[i]['ev'] == 'Commit' and lr[i - 1]['ev'] == 'Rec' and lr[i - 1]['pid'] == lr[i]['pid'])
+    cases.append(('TraceLocks', 'a commit removed before the unlock', lr[:ci] + lr[ci + 1:], False))
     cases.append(('TraceDb', 'unchanged trace', dr, True))
     cases.append(('TraceDb', 'a saved row changed (changed_runid + 1)', flip(list(reversed(dr)), lambda x: x['ev'] == 'RowSave' and x['changed'] > 0, 'changed', lambda v: v + 1)[::-1], False))
     cases.append(('TraceDb', 'a dependency edge not recorded', drop(dr, lambda x: x['ev'] == 'DepAdd'), False))
